@@ -1,4 +1,5 @@
 import BigDec.Model.Roots
+import BigDec.Proofs.CbrtReal
 import BigDec.Proofs.Round
 import Mathlib.Tactic.Ring
 import Mathlib.Tactic.Linarith
@@ -346,5 +347,65 @@ theorem C11_implCbrt_spec (n : Nat) (scale : Int) (p : Nat) (m : Mode) (neg : Bo
 
 example : (Dec.mk (-27) 0).cbrtCtx 3 .Floor = ⟨-300, 2⟩ ∧ (Dec.mk 2 0).cbrtCtx 4 .HalfEven = ⟨1260, 3⟩ := by
   constructor <;> decide +kernel
+
+/-- **the real-number reading of `cbrt`** (inexact case): for the real cube root `c ≥ 0` of the
+    magnitude `n·10^-scale` (any real with `c³ = n·10^-scale`), whatever `impl_cbrt` returns when the
+    shifted integer `D` is not a perfect cube has, as its magnitude, `c` rounded at the position of the
+    result's own last digit: floor / ceiling as the mode and the sign dictate, nearest for the three
+    half modes (a tie is impossible). -/
+theorem C11_cbrt_real (n : Nat) (scale : Int) (p : Nat) (m : Mode) (neg : Bool) (hn : n ≠ 0)
+    (c : ℝ) (hc0 : 0 ≤ c) (hc : c ^ 3 = (n : ℝ) * (10 : ℝ) ^ (-scale))
+    (hinexact :
+      let shift0 := 3 * (p + cbrtExtraDigits) - numDigits n
+      let rem3 := (tdivRem (scale + shift0) 3).2
+      let expShift : Nat := if rem3 > 0 then shift0 + (3 - rem3).toNat else if rem3 < 0 then shift0 + (-rem3).toNat else shift0
+      icbrt (n * 10 ^ expShift) * icbrt (n * 10 ^ expShift) * icbrt (n * 10 ^ expShift) ≠ n * 10 ^ expShift) :
+    (implCbrt n scale p m neg).int =
+      (if neg then -1 else 1) * Spec.magRound m neg (c * (10 : ℝ) ^ (implCbrt n scale p m neg).scale) := by
+  obtain ⟨ht, hspec⟩ := C11_implCbrt_spec n scale p m neg hn
+  have hthird := C11_scale_third scale (3 * (p + cbrtExtraDigits) - numDigits n)
+  simp only at hspec hinexact hthird ht
+  generalize hsh : 3 * (p + cbrtExtraDigits) - numDigits n = shift0 at hspec hinexact hthird ht
+  generalize hr3 : (tdivRem (scale + (shift0 : Int)) 3).2 = rem3 at hspec hinexact hthird ht
+  generalize hq3 : (tdivRem (scale + (shift0 : Int)) 3).1 = q3 at hspec hthird
+  generalize hns : (if rem3 > 0 then q3 + 1 else q3 : Int) = newScale0 at hspec hthird
+  generalize hes : (if rem3 > 0 then shift0 + (3 - rem3).toNat else if rem3 < 0 then shift0 + (-rem3).toNat else shift0 : Nat) = expShift
+    at hspec hinexact hthird ht
+  obtain ⟨f1, f2⟩ := C11_icbrt_floor (n * 10 ^ expShift)
+  generalize hR : icbrt (n * 10 ^ expShift) = r at hspec hinexact f1 f2 ht
+  rw [if_neg hinexact] at hspec
+  generalize hT : numDigits r - p = t at hspec ht
+  rw [hspec]
+  simp only
+  -- the real root of D
+  have hY3 : (c * (10 : ℝ) ^ newScale0) ^ 3 = ((n * 10 ^ expShift : Nat) : ℝ) := by
+    rw [mul_pow, hc]
+    have : ((10 : ℝ) ^ newScale0) ^ 3 = (10 : ℝ) ^ (3 * newScale0) := by
+      rw [← zpow_natCast, ← zpow_mul]; congr 1; ring
+    rw [this, ← hthird, mul_assoc, ← zpow_add₀ (by norm_num : (10 : ℝ) ≠ 0)]
+    have : -scale + (scale + (expShift : Int)) = (expShift : Int) := by ring
+    rw [this, zpow_natCast]; push_cast; ring
+  have hY0 : 0 ≤ c * (10 : ℝ) ^ newScale0 := mul_nonneg hc0 (zpow_pos (by norm_num) _).le
+  have hlt : r * r * r < n * 10 ^ expShift := lt_of_le_of_ne f1 hinexact
+  have b1 : (r : ℝ) < c * (10 : ℝ) ^ newScale0 := by
+    by_contra hcon
+    push Not at hcon
+    have : (c * (10 : ℝ) ^ newScale0) ^ 3 ≤ (r : ℝ) ^ 3 := pow_le_pow_left₀ hY0 hcon 3
+    rw [hY3] at this
+    have h' : ((r * r * r : Nat) : ℝ) < ((n * 10 ^ expShift : Nat) : ℝ) := by exact_mod_cast hlt
+    push_cast at h' this
+    nlinarith
+  have b2 : c * (10 : ℝ) ^ newScale0 < (r : ℝ) + 1 := by
+    by_contra hcon
+    push Not at hcon
+    have : ((r : ℝ) + 1) ^ 3 ≤ (c * (10 : ℝ) ^ newScale0) ^ 3 := pow_le_pow_left₀ (by positivity) hcon 3
+    rw [hY3] at this
+    have h' : ((n * 10 ^ expShift : Nat) : ℝ) < (((r + 1) * (r + 1) * (r + 1) : Nat) : ℝ) := by exact_mod_cast f2
+    push_cast at h' this
+    nlinarith
+  have hcell := Spec.cell_round_real m neg r t (by omega) _ b1 b2
+  have hscale : c * (10 : ℝ) ^ (newScale0 - (t : Int)) = c * (10 : ℝ) ^ newScale0 / (10 : ℝ) ^ t := by
+    rw [zpow_sub₀ (by norm_num : (10 : ℝ) ≠ 0), zpow_natCast]; ring
+  rw [hscale, ← hcell]
 
 end BigDec
